@@ -3,11 +3,19 @@ from vlib import core
 from props import graphcommon as gc
 LEVEL = 'proof'
 def run(rep):
-    gc.small_carriers(rep, 'C01'); gc.insert_obligations(rep, 'C01')
-    fails, first = gc.bounded_insert(rep)
-    gc.canaries(rep)
-    rep.assume('LiteRT allocate_tensors/invoke succeed on a structurally well-formed, dtype-consistent model (external C++ runtime, unchecked)')
+    gc.small_carriers(rep, 'C01'); gc.insert_obligations(rep, 'C01'); gc.performer_obligations(rep, 'C01')
+    gc.bounded_insert(rep); gc.e2e_standin(rep, 'C01', sampled3=(300 if rep.tier == 'thorough' else 0))
+    gc.canaries(rep); gc.performer_canaries(rep)
+    rep.assume('LiteRT allocate_tensors/invoke succeed on a structurally well-formed, dtype-consistent model (external C++ runtime; exercised only by the bounded end-to-end stand-in)')
+    rep.assume('generator -> performer composition (InstValid / laminar instruction lists, _update_instructions, _apply_transformations, transform_graph loops) is covered by the bounded end-to-end stand-in only')
     rep.trust('flatbuffer object-API classes are plain attribute bags; numpy int32 index arrays behave as Python int lists for indexing, len, `in`, item assignment')
+    rep.trust('flatbuffer serialisation / parsing is faithful (TensorFlow flatbuffer_utils)')
 def replay(payload):
     from replay import graph_native
-    r = graph_native.replay_insert(payload['inputs'].get('kind', 'dequant'), payload['inputs']); print(r); return 1 if r['confirmed'] else 0
+    inp = payload.get('inputs', {})
+    if 'spec' in inp:
+        from bounded import e2e
+        f = e2e.run_case((inp['spec'], inp['modes'])); print(f); return 1 if any(x.startswith('C0') for x in f) else 0
+    if 'orig_map' in inp: r = graph_native.replay_apply_single(inp)
+    else: r = graph_native.replay_insert(inp.get('kind', 'dequant'), inp)
+    print(r); return 1 if r.get('confirmed') else 0
